@@ -81,8 +81,10 @@ def HState.markRemote (s : HState) (id : Bytes) (src : Addr) (now : Nat) : HStat
 
 def emptyResp (id : Bytes) : Resp := { id := id, values := [], nodes4 := [], nodes6 := [], token := none }
 
-def errInvalidToken : Bytes := "received an invalid token".toUTF8.toList.map (·.toNat)
-def errStorageFull : Bytes := "announce storage is full".toUTF8.toList.map (·.toNat)
+/-- "received an invalid token" -/
+def errInvalidToken : Bytes := [114, 101, 99, 101, 105, 118, 101, 100, 32, 97, 110, 32, 105, 110, 118, 97, 108, 105, 100, 32, 116, 111, 107, 101, 110]
+/-- "announce storage is full" -/
+def errStorageFull : Bytes := [97, 110, 110, 111, 117, 110, 99, 101, 32, 115, 116, 111, 114, 97, 103, 101, 32, 105, 115, 32, 102, 117, 108, 108]
 
 /-- `Token::new` needs exactly 20 bytes; only then is the token store consulted (`checkin` for the
 source IP, which may rotate the secrets) -/
